@@ -154,3 +154,125 @@ Proof.
     vm_compute. eexists. split; reflexivity.
   - eexists. split; vm_compute; reflexivity.
 Qed.
+
+(* ------------------------------------------------------------------ *)
+(* doRemove                                                             *)
+(* ------------------------------------------------------------------ *)
+Definition cct (lbl : path) (lf : option (bytes * bytes)) (l r : tree) : tree :=
+  fst (fst (collapse lbl lf l r false None)).
+
+Lemma collapse_tree_indep lbl lf l r c e : fst (fst (collapse lbl lf l r c e)) = cct lbl lf l r.
+Proof.
+  unfold cct, collapse.
+  destruct lf as [[k0 v0]|], l as [|kl vl|ll lfl l1 l2], r as [|kr vr|lr lfr r1 r2]; reflexivity.
+Qed.
+
+Definition present_t (t : tree) : bool := match t with Nil => false | _ => true end.
+Lemma non_nil_view p : non_nil p = present_t (view p).
+Proof.
+  unfold non_nil. destruct p as [|t|c k v|c lbl lf l r]; try reflexivity.
+  - cbn [deref1]. rewrite view_ref. destruct t as [|? ?|? [[? ?]|] ? ?]; reflexivity.
+  - rewrite view_node. cbn [deref1]. destruct lf as [|tl|? ? ?|? ? ? ? ?]; try reflexivity.
+    destruct c; reflexivity.
+Qed.
+
+Lemma pcollapse_view lbl lf l r : not_ref lf ->
+  view (pcollapse lbl lf l r (non_nil l) (non_nil r)) = cct lbl (lf_view lf) (view l) (view r).
+Proof.
+  intros Hnr. unfold pcollapse. rewrite !non_nil_view.
+  assert (has_leaf lf = match lf_view lf with Some _ => true | None => false end) as Hl
+    by (destruct lf; reflexivity).
+  rewrite Hl.
+  destruct (lf_view lf) as [[k0 v0]|] eqn:Elf.
+  - (* the node has its own leaf *)
+    destruct (view l) eqn:El, (view r) eqn:Er; cbn [present_t negb andb orb];
+      try (rewrite (view_node_nr _ _ _ _ _ Hnr), Elf, El, Er; reflexivity).
+    destruct lf; try discriminate. cbn in Elf. injection Elf as -> ->. reflexivity.
+  - cbn [negb andb].
+    assert (forall child, view (match deref1 child with
+                                | PNode c lbl' lf' l' r' => PNode false (lbl ++ lbl') lf' l' r'
+                                | n => n end) =
+                          match view child with
+                          | Node lbl' lf' l' r' => Node (lbl ++ lbl') lf' l' r'
+                          | t => t end) as Hm.
+    { intros child. rewrite <- (view_deref1 child).
+      destruct (deref1 child) as [|t|c0 k1 v1|c0 lbl' lf' l' r'] eqn:Ed; try reflexivity.
+      - exfalso. destruct child as [|t0|? ? ?|? ? lf0 ? ?]; cbn [deref1] in Ed; try discriminate.
+        + destruct t0 as [|? ?|? [[? ?]|] ? ?]; discriminate.
+        + destruct lf0; try discriminate. destruct clean; discriminate.
+      - pose proof (deref1_lf _ _ _ _ _ _ Ed) as Hn. now rewrite !view_node_nr by exact Hn. }
+    destruct (view l) eqn:El, (view r) eqn:Er; cbn [present_t negb andb orb];
+      try (rewrite (view_node_nr _ _ _ _ _ Hnr), Elf, El, Er; reflexivity);
+      rewrite Hm, ?El, ?Er; reflexivity.
+Qed.
+
+Section RemoveProofs.
+  Variable k : bytes.
+
+  Definition whole_r (s : rstate) : tree :=
+    match s with
+    | RDown fs d cur => plug fs (fst (fst (remove d k (view cur))))
+    | RRet fs res => plug fs (view res)
+    | RCol0 fs lbl lf l r | RCol1 fs lbl lf l r _ => plug fs (cct lbl (lf_view lf) (view l) (view r))
+    | RDone res => view res
+    end.
+  Definition inv_r (s : rstate) : Prop :=
+    frames_ok (rframes s) /\
+    match s with
+    | RCol0 _ _ lf _ _ => not_ref lf
+    | RCol1 _ _ lf l _ lp => not_ref lf /\ lp = present_t (view l)
+    | _ => True
+    end.
+
+  Lemma remove_node d lbl lf l r :
+    fst (fst (remove d k (Node lbl lf l r))) =
+    let d' := (d + length lbl)%nat in
+    let kl := length (bits_of k) in
+    if (kl <? d')%nat then Node lbl lf l r
+    else if (kl =? d')%nat then
+      cct lbl (match lf with Some (k0, v0) => if bytes_eqb k0 k then None else lf | None => None end) l r
+    else if bit (bits_of k) d' then cct lbl lf l (fst (fst (remove d' k r)))
+    else cct lbl lf (fst (fst (remove d' k l))) r.
+  Proof.
+    cbn [remove]. cbv zeta.
+    destruct (length (bits_of k) <? d + length lbl)%nat; [reflexivity|].
+    destruct (length (bits_of k) =? d + length lbl)%nat.
+    - destruct lf as [[k0 v0]|]; [destruct (bytes_eqb k0 k)|]; apply collapse_tree_indep.
+    - destruct (bit (bits_of k) (d + length lbl)).
+      + destruct (remove (d + length lbl) k r) as [[r' c] e]. apply collapse_tree_indep.
+      + destruct (remove (d + length lbl) k l) as [[l' c] e]. apply collapse_tree_indep.
+  Qed.
+
+  Lemma rstep_whole s : inv_r s -> whole_r (rstep k s) = whole_r s /\ inv_r (rstep k s).
+  Proof.
+    destruct s as [fs d cur|fs res|fs lbl lf l r|fs lbl lf l r lp|res]; cbn [rstep]; intros [Hok Hs].
+    - (* descent *)
+      unfold rdown_step.
+      replace (whole_r (RDown fs d cur)) with (plug fs (fst (fst (remove d k (view (deref1 cur))))))
+        by (cbn [whole_r]; now rewrite view_deref1).
+      destruct (deref1 cur) as [|t|c0 k0 v0|c lbl lf l r] eqn:E;
+        try (cbn [whole_r rframes inv_r]; rewrite view_full; split; [reflexivity|split; [exact Hok|exact I]]).
+      pose proof (deref1_lf _ _ _ _ _ _ E) as Hnr.
+      rewrite (view_node_nr _ _ _ _ _ Hnr), remove_node. cbv zeta.
+      destruct (length (bits_of k) <? d + length lbl)%nat.
+      + cbn [whole_r inv_r rframes]. rewrite <- (view_deref1 cur), E, (view_node_nr _ _ _ _ _ Hnr).
+        split; [reflexivity|split; [exact Hok|exact I]].
+      + destruct (length (bits_of k) =? d + length lbl)%nat.
+        * cbn [whole_r inv_r rframes]. split; [|split; [exact Hok|]].
+          -- f_equal. f_equal. destruct lf as [| |c1 k1 v1|]; try reflexivity. cbn [lf_view].
+             destruct (bytes_eqb k1 k); reflexivity.
+          -- destruct lf as [| |c1 k1 v1|]; try exact I; try contradiction. destruct (bytes_eqb k1 k); exact I.
+        * destruct (bit (bits_of k) (d + length lbl));
+            cbn [whole_r inv_r rframes plug frame_view f_lbl f_lf f_right f_sib];
+            (split; [reflexivity|split; [constructor; [split; [reflexivity|exact Hnr]|exact Hok]|exact I]]).
+    - (* return to the parent frame *)
+      destruct fs as [|f fs']; cbn [whole_r inv_r rframes]; [auto|].
+      inversion Hok as [|? ? [Hd Hnr] Hok']; subst. split; [|split; [exact Hok'|exact Hnr]].
+      cbn [plug]. f_equal. unfold frame_view.
+      destruct (f_right f); admit.
+    - cbn [whole_r inv_r rframes] in *. split; [reflexivity|split; [exact Hok|split; [exact Hs|apply non_nil_view]]].
+    - cbn [whole_r inv_r rframes] in *. destruct Hs as [Hnr ->]. rewrite <- non_nil_view.
+      rewrite pcollapse_view by exact Hnr. auto.
+    - auto.
+  Admitted.
+End RemoveProofs.
